@@ -5,6 +5,7 @@ package main
 // ranges and lengths of captured slices.
 
 import (
+	"fmt"
 	"go/token"
 	"go/types"
 	"math"
@@ -392,6 +393,23 @@ func (pr *Prover) noteStructTableLoad(a string, ld *ssa.UnOp) {
 	if !ok {
 		return
 	}
+	// a package-level table ([]struct{…} literal, never modified): element read in place or through the range
+	// variable's copy
+	{
+		gs := pr.tableGlobalsOf(fa)
+		if len(gs) > 0 {
+			lo, hi := math.Inf(1), math.Inf(-1)
+			for _, g := range gs {
+				l, h, ok := pr.p.constStructTable(g, fa.Field)
+				if !ok {
+					return
+				}
+				lo, hi = math.Min(lo, l), math.Max(hi, h)
+			}
+			pr.atomRange(a, lo, hi)
+			return
+		}
+	}
 	// the array the element comes from
 	var tables []*ssa.Alloc
 	arrayOf := func(addr ssa.Value) *ssa.Alloc {
@@ -541,6 +559,286 @@ func onlyLoadedFrom(ia *ssa.IndexAddr) bool {
 						return false
 					}
 				}
+			}
+		default:
+			return false
+		}
+	}
+	return true
+}
+
+// constStructTable: g is a package-level slice of structs that init assigns once, from an array literal whose
+// field f receives constants only, and that nothing else in the package can modify (every other use of g is a load
+// whose value is only measured with len, ranged over or indexed for reading).  Returns the range of field f.
+func (p *Prog) constStructTable(g *ssa.Global, f int) (lo, hi float64, ok bool) {
+	return p.constStructTableGeneric(g, f, func(v ssa.Value) (float64, bool) {
+		k, isK := constInt(v)
+		return float64(k), isK
+	}, false)
+}
+
+// constStructTableGeneric: val classifies the value stored into field f of an element (its number, for ranges);
+// full: every element must receive a store (no element keeps the zero value).
+func (p *Prog) constStructTableGeneric(g *ssa.Global, f int, val func(ssa.Value) (float64, bool), full bool) (lo, hi float64, ok bool) {
+	key := fmt.Sprintf("stbl:%s:%d:%v", g.Name(), f, full)
+	type res struct {
+		lo, hi float64
+		ok     bool
+	}
+	if v, found := p.cache[key]; found {
+		r := v.(res)
+		return r.lo, r.hi, r.ok
+	}
+	p.cache[key] = res{}
+	pt, isP := g.Type().Underlying().(*types.Pointer)
+	if !isP {
+		return 0, 0, false
+	}
+	if _, isS := pt.Elem().Underlying().(*types.Slice); !isS {
+		return 0, 0, false
+	}
+	var arr *ssa.Alloc
+	readOnlyElem := func(ia *ssa.IndexAddr) bool { return onlyLoadedFrom(ia) }
+	for _, fn := range p.AllFuncs() {
+		isInit := fn.Name() == "init" && fn.Parent() == nil
+		for _, b := range fn.Blocks {
+			for _, ins := range b.Instrs {
+				for _, op := range ins.Operands(nil) {
+					if *op != ssa.Value(g) {
+						continue
+					}
+					switch x := ins.(type) {
+					case *ssa.Store:
+						if !isInit || x.Addr != ssa.Value(g) || arr != nil {
+							return 0, 0, false
+						}
+						sl, isSl := x.Val.(*ssa.Slice)
+						if !isSl || sl.Low != nil || sl.High != nil || sl.Max != nil {
+							return 0, 0, false
+						}
+						al, isAl := sl.X.(*ssa.Alloc)
+						if !isAl {
+							return 0, 0, false
+						}
+						arr = al
+					case *ssa.UnOp:
+						if x.Op != token.MUL || x.Referrers() == nil {
+							return 0, 0, false
+						}
+						for _, r := range *x.Referrers() {
+							switch y := r.(type) {
+							case *ssa.DebugRef:
+							case *ssa.Call:
+								if bi, isB := y.Call.Value.(*ssa.Builtin); isB && bi.Name() == "len" {
+									continue
+								}
+								// handed to an mq function that only measures, ranges over or indexes it for reading
+								sc := y.Call.StaticCallee()
+								okCall := sc != nil && sc.Blocks != nil
+								if okCall {
+									for i, a := range y.Call.Args {
+										if a == ssa.Value(x) && (i >= len(sc.Params) || !sliceParamReadOnly(sc.Params[i], 0)) {
+											okCall = false
+										}
+									}
+								}
+								if !okCall {
+									return 0, 0, false
+								}
+							case *ssa.IndexAddr:
+								if !readOnlyElem(y) {
+									return 0, 0, false
+								}
+							default:
+								return 0, 0, false
+							}
+						}
+					default:
+						return 0, 0, false
+					}
+				}
+			}
+		}
+	}
+	if arr == nil || arr.Referrers() == nil {
+		return 0, 0, false
+	}
+	at, isA := arr.Type().Underlying().(*types.Pointer).Elem().Underlying().(*types.Array)
+	if !isA {
+		return 0, 0, false
+	}
+	lo, hi = math.Inf(1), math.Inf(-1)
+	seen := map[int64]bool{}
+	for _, r := range *arr.Referrers() {
+		switch x := r.(type) {
+		case *ssa.DebugRef:
+		case *ssa.Slice: // the one stored into g
+		case *ssa.IndexAddr:
+			k, isC := constInt(x.Index)
+			if !isC || x.Referrers() == nil {
+				return 0, 0, false
+			}
+			for _, r2 := range *x.Referrers() {
+				switch y := r2.(type) {
+				case *ssa.DebugRef:
+				case *ssa.FieldAddr:
+					if y.Referrers() == nil {
+						continue
+					}
+					for _, r3 := range *y.Referrers() {
+						st, isSt := r3.(*ssa.Store)
+						if !isSt || st.Addr != ssa.Value(y) {
+							return 0, 0, false
+						}
+						if y.Field != f {
+							continue
+						}
+						cv, isK := val(st.Val)
+						if !isK {
+							return 0, 0, false
+						}
+						seen[k] = true
+						lo, hi = math.Min(lo, cv), math.Max(hi, cv)
+					}
+				default:
+					return 0, 0, false
+				}
+			}
+		default:
+			return 0, 0, false
+		}
+	}
+	if int64(len(seen)) < at.Len() {
+		if full {
+			return 0, 0, false
+		}
+		lo, hi = math.Min(lo, 0), math.Max(hi, 0)
+	}
+	if math.IsInf(lo, 0) || math.IsInf(hi, 0) {
+		return 0, 0, false
+	}
+	p.cache[key] = res{lo, hi, true}
+	return lo, hi, true
+}
+
+// tableGlobalsOf: fa addresses a field of an element of a package-level slice (in place: &g[i].f — or through the
+// range variable's copy: e := g[i]; &e.f).  Returns the globals the element may come from.
+func (pr *Prover) tableGlobalsOf(fa *ssa.FieldAddr) []*ssa.Global {
+	// the globals a slice value may be: a load of one, or a slice parameter that every (static) call site of this
+	// function fills with a load of one
+	globalsOfSlice := func(v ssa.Value) []*ssa.Global {
+		if l, ok := v.(*ssa.UnOp); ok && l.Op == token.MUL {
+			if g, ok := l.X.(*ssa.Global); ok {
+				return []*ssa.Global{g}
+			}
+			return nil
+		}
+		prm, ok := v.(*ssa.Parameter)
+		if !ok {
+			return nil
+		}
+		idx := paramIndex(pr.fn, prm)
+		sites := pr.p.allEffects().callSitesOf[pr.fn]
+		if idx < 0 || len(sites) == 0 {
+			return nil
+		}
+		var out []*ssa.Global
+		for _, s := range sites {
+			cc := s.Common()
+			if cc.IsInvoke() || cc.StaticCallee() != pr.fn || idx >= len(cc.Args) {
+				return nil
+			}
+			l, ok := cc.Args[idx].(*ssa.UnOp)
+			if !ok || l.Op != token.MUL {
+				return nil
+			}
+			g, ok := l.X.(*ssa.Global)
+			if !ok {
+				return nil
+			}
+			out = append(out, g)
+		}
+		return out
+	}
+	globalsOf := func(addr ssa.Value) []*ssa.Global {
+		ia, ok := addr.(*ssa.IndexAddr)
+		if !ok {
+			return nil
+		}
+		return globalsOfSlice(ia.X)
+	}
+	var gs []*ssa.Global
+	switch x := fa.X.(type) {
+	case *ssa.IndexAddr:
+		gs = append(gs, globalsOf(x)...)
+	case *ssa.Alloc:
+		if x.Referrers() != nil {
+			for _, r := range *x.Referrers() {
+				st, ok := r.(*ssa.Store)
+				if !ok || st.Addr != ssa.Value(x) {
+					continue
+				}
+				el, ok := st.Val.(*ssa.UnOp)
+				if !ok || el.Op != token.MUL || len(globalsOf(el.X)) == 0 {
+					return nil
+				}
+				gs = append(gs, globalsOf(el.X)...)
+			}
+		}
+	}
+	return gs
+}
+
+// constStructTableNonNil: like constStructTable, for a pointer-like field: every element of the table receives a
+// value that cannot be nil (a function, a closure, an address) in init.
+func (p *Prog) constStructTableNonNil(g *ssa.Global, f int) bool {
+	key := fmt.Sprintf("stblnn:%s:%d", g.Name(), f)
+	if v, found := p.cache[key]; found {
+		return v.(bool)
+	}
+	p.cache[key] = false
+	// immutability and shape: the integer variant on any field decides them; use field f with the value test swapped
+	if _, _, ok := p.constStructTableGeneric(g, f, func(v ssa.Value) (float64, bool) {
+		switch v.(type) {
+		case *ssa.Function, *ssa.MakeClosure, *ssa.Alloc, *ssa.Global, *ssa.FieldAddr, *ssa.IndexAddr, *ssa.MakeInterface:
+			return 1, true
+		}
+		return 0, false
+	}, true); !ok {
+		return false
+	}
+	p.cache[key] = true
+	return true
+}
+
+// sliceParamReadOnly: the slice parameter is only measured (len), ranged over / indexed for reading, or passed on to
+// mq functions that do the same.
+func sliceParamReadOnly(prm *ssa.Parameter, depth int) bool {
+	if prm.Referrers() == nil {
+		return true
+	}
+	if depth > 2 {
+		return false
+	}
+	for _, r := range *prm.Referrers() {
+		switch y := r.(type) {
+		case *ssa.DebugRef:
+		case *ssa.Call:
+			if bi, isB := y.Call.Value.(*ssa.Builtin); isB && bi.Name() == "len" {
+				continue
+			}
+			sc := y.Call.StaticCallee()
+			if sc == nil || sc.Blocks == nil {
+				return false
+			}
+			for i, a := range y.Call.Args {
+				if a == ssa.Value(prm) && (i >= len(sc.Params) || !sliceParamReadOnly(sc.Params[i], depth+1)) {
+					return false
+				}
+			}
+		case *ssa.IndexAddr:
+			if !onlyLoadedFrom(y) {
+				return false
 			}
 		default:
 			return false
